@@ -161,11 +161,13 @@ func (w *world) scan(where, scheme, host string, text string) {
 			if w.asked[host] {
 				how = "after-its-challenge" // the receiver (or a host that challenged) asked for them
 			}
-			w.leak(fmt.Sprintf("credential-sent-elsewhere to=%s %s", role(host), how), fmt.Sprintf("%s of %s was sent to %s (%s)", s.kind, s.owner, host, where))
+			// the key names receiver, secret kind and owner: a recorded finding about the password does
+			// not cover a token that starts to travel the same way
+			w.leak(fmt.Sprintf("credential-sent-elsewhere to=%s %s kind=%s of=%s", role(host), how, s.kind, role(s.owner)), fmt.Sprintf("%s of %s was sent to %s (%s)", s.kind, s.owner, host, where))
 			continue
 		}
 		if scheme == "http" && w.cfg.TLS && (host == hA || host == hB || host == hM) {
-			w.leak("credential-in-clear-text", fmt.Sprintf("%s of %s was sent over plain http to %s, a host configured for TLS (%s)", s.kind, s.owner, host, where))
+			w.leak("credential-in-clear-text kind="+s.kind+" of="+role(s.owner), fmt.Sprintf("%s of %s was sent over plain http to %s, a host configured for TLS (%s)", s.kind, s.owner, host, where))
 		}
 	}
 }
